@@ -262,6 +262,14 @@ class Interp:
                 if v is not None and v[0] == 'slice':
                     c = Cell(('byte', v[1], v[2], e['ci'], bool(e.get('end'))))
                     continue
+                if v is not None and v[0] == 'vec':
+                    # a slice pattern / constant index on a vector of known elements (read access)
+                    i = (len(v[1]) - e['ci']) if e.get('end') else e['ci']
+                    if not (0 <= i < len(v[1])):
+                        raise Unmodelled('constant index out of range')
+                    x_ = v[1][i]
+                    c = x_ if isinstance(x_, Cell) else Cell(x_)
+                    continue
                 if v is None or v[0] != 'arr':
                     raise Unmodelled('constant index into %r' % (v[0] if v else None,))
                 i = (len(v[1]) - e['ci']) if e.get('end') else e['ci']
